@@ -10,6 +10,40 @@ open PotasscoVerif.Options PotasscoVerif.OptIndex
 
 abbrev dd : List Nat := [45, 45]     -- "--"
 
+abbrev noP : List Nat := [110, 111, 45]   -- "no-"
+
+/-- `--no-name` for a negatable option (and `no-name` is not itself an option): the pair (option, "no") -/
+theorem C13_long_neg (c : Context) (aU aF : Bool) (name : List Nat) (k : Nat) (p : PState) (hname : ∀ x ∈ name, x ≠ 61)
+    (hno : getOption c aU (noP ++ name) .nameOrPrefix = .ok none ∨ ∃ key, getOption c aU (noP ++ name) .nameOrPrefix = .error (.unknown key))
+    (hget : getOption c aU name .nameOrPrefix = .ok (some k)) (hneg : (optOf c k).negatable = true) :
+    handleLong c aU aF (noP ++ name) p = .ok (true, p.addValue k [110, 111]) := by
+  unfold handleLong
+  have hn' : ∀ x ∈ noP ++ name, x ≠ 61 := by
+    intro x hx; simp only [noP, List.mem_append, List.mem_cons, List.not_mem_nil, or_false] at hx
+    rcases hx with (h | h | h) | h
+    · omega
+    · omega
+    · omega
+    · exact hname x h
+  rw [splitEq_none _ hn']
+  have hpre : noP.isPrefixOf (noP ++ name) = true := by simp [noP, List.isPrefixOf]
+  have hdrop : (noP ++ name).drop 3 = name := by simp [noP]
+  simp only [Option.getD_none, List.isEmpty_nil, hpre, Bool.and_self, ↓reduceIte, hdrop, hget, hneg]
+  rcases hno with h | ⟨key, h⟩
+  · have h' : getOption c aU (110 :: 111 :: 45 :: name) .nameOrPrefix = .ok none := h
+    simp [h', PState.addValue]
+  · have h' : getOption c aU (110 :: 111 :: 45 :: name) .nameOrPrefix = .error (.unknown key) := h
+    simp [h', PState.addValue]
+
+/-- `--xyz…` that names no option (unknown options allowed) and is no negation: not handled, the token is left -/
+theorem C13_long_unknown (c : Context) (aU aF : Bool) (r : List Nat) (p : PState) (hneg : noP.isPrefixOf r = false)
+    (hget : getOption c aU (splitEq r).1 .nameOrPrefix = .ok none) : handleLong c aU aF r p = .ok (false, p) := by
+  unfold handleLong
+  cases hs : splitEq r with
+  | mk name vopt =>
+    rw [hs] at hget
+    simp only [hneg, Bool.and_false, Bool.false_eq_true, ↓reduceIte, hget]
+
 /-- `Sp ps rm ts`: the tokens `ts` are one way of writing the pairs `ps` (in order) and the left-over tokens `rm` (in order) -/
 inductive Sp (c : Context) (aU aF : Bool) (pos : Option (List Nat)) : List (Nat × List Nat) → List (List Nat) → List (List Nat) → Prop
   | nil : Sp c aU aF pos [] [] []
@@ -37,6 +71,24 @@ inductive Sp (c : Context) (aU aF : Bool) (pos : Option (List Nat)) : List (Nat 
   | group (fl : List (Nat × Nat)) {ps rm ts} (hne : fl ≠ []) (h0 : ∀ x ∈ fl, x.1 ≠ 45 ∨ True) (hfirst : (fl.map (·.1)).head? ≠ some 45)
       (hall : ∀ x ∈ fl, getOption c aU [x.1] .alias = .ok (some x.2) ∧ (optOf c x.2).implicit = true ∧ (optOf c x.2).flag = true)
       (t : Sp c aU aF pos ps rm ts) : Sp c aU aF pos (fl.map (fun x => (x.2, [])) ++ ps) rm ((45 :: fl.map (·.1)) :: ts)
+  /-- `--no-name` for a negatable option -/
+  | longNeg (name : List Nat) (k : Nat) {ps rm ts} (hname : ∀ x ∈ name, x ≠ 61)
+      (hno : getOption c aU (noP ++ name) .nameOrPrefix = .ok none ∨ ∃ key, getOption c aU (noP ++ name) .nameOrPrefix = .error (.unknown key))
+      (hget : getOption c aU name .nameOrPrefix = .ok (some k)) (hneg : (optOf c k).negatable = true)
+      (t : Sp c aU aF pos ps rm ts) : Sp c aU aF pos ((k, [110, 111]) :: ps) rm ((dd ++ (noP ++ name)) :: ts)
+  /-- an unknown long option (with or without `=value`) is left in place (when the caller allows unknown options) -/
+  | unknownLong (r : List Nat) {ps rm ts} (hne : r ≠ []) (hneg : noP.isPrefixOf r = false) (hget : getOption c aU (splitEq r).1 .nameOrPrefix = .ok none)
+      (t : Sp c aU aF pos ps rm ts) : Sp c aU aF pos ps ((dd ++ r) :: rm) ((dd ++ r) :: ts)
+  /-- grouped flags ending in an option with its value attached: `-abcVALUE` -/
+  | groupVal (fl : List (Nat × Nat)) (a : Nat) (v : List Nat) (k : Nat) {ps rm ts} (hne : fl ≠ []) (hfirst : (fl.map (·.1)).head? ≠ some 45)
+      (hall : ∀ x ∈ fl, getOption c aU [x.1] .alias = .ok (some x.2) ∧ (optOf c x.2).implicit = true ∧ (optOf c x.2).flag = true)
+      (hv : v ≠ []) (hget : getOption c aU [a] .alias = .ok (some k)) (himp : (optOf c k).implicit = false)
+      (t : Sp c aU aF pos ps rm ts) : Sp c aU aF pos (fl.map (fun x => (x.2, [])) ++ (k, v) :: ps) rm ((45 :: (fl.map (·.1) ++ a :: v)) :: ts)
+  /-- grouped flags ending in an option whose value is the next token: `-abc VALUE` -/
+  | groupSep (fl : List (Nat × Nat)) (a : Nat) (v : List Nat) (k : Nat) {ps rm ts} (hne : fl ≠ []) (hfirst : (fl.map (·.1)).head? ≠ some 45)
+      (hall : ∀ x ∈ fl, getOption c aU [x.1] .alias = .ok (some x.2) ∧ (optOf c x.2).implicit = true ∧ (optOf c x.2).flag = true)
+      (hget : getOption c aU [a] .alias = .ok (some k)) (himp : (optOf c k).implicit = false)
+      (t : Sp c aU aF pos ps rm ts) : Sp c aU aF pos (fl.map (fun x => (x.2, [])) ++ (k, v) :: ps) rm ((45 :: (fl.map (·.1) ++ [a])) :: v :: ts)
   /-- a positional token goes through the positional handler -/
   | positional (tok : List Nat) (k : Nat) {ps rm ts} (hd : List.isPrefixOf [45, 45] tok = false) (hs : (tok.head? == some 45 && decide (tok.length > 1)) = false)
       (hget : getOption c aU (pos.getD [80, 111, 115, 105, 116, 105, 111, 110, 97, 108, 32, 79, 112, 116, 105, 111, 110]) .nameOrPrefix = .ok (some k))
@@ -63,6 +115,17 @@ theorem handleShort_group (c : Context) (aU : Bool) (fl : List (Nat × Nat)) (p 
       rw [List.map_cons, C13_flag_group c aU x.1 _ x.2 p f h1 h2 h3]
       rw [ih (p.addValue x.2 []) f (by simp at hf; omega) (fun y hy => hall y (by simp [hy]))]
       simp [PState.addValue, List.append_assoc]
+
+theorem handleShort_group_then (c : Context) (aU : Bool) (fl : List (Nat × Nat)) (rest : List Nat) (p : PState) (f : Nat)
+    (hall : ∀ x ∈ fl, getOption c aU [x.1] .alias = .ok (some x.2) ∧ (optOf c x.2).implicit = true ∧ (optOf c x.2).flag = true) :
+    handleShort c aU (f + fl.length) (fl.map (·.1) ++ rest) p = handleShort c aU f rest { p with values := p.values ++ fl.map (fun x => (x.2, [])) } := by
+  induction fl generalizing p with
+  | nil => simp
+  | cons x r ih =>
+    obtain ⟨h1, h2, h3⟩ := hall x (by simp)
+    rw [List.map_cons, List.cons_append, show f + (x :: r).length = (f + r.length) + 1 by simp; omega, C13_flag_group c aU x.1 _ x.2 p _ h1 h2 h3]
+    rw [ih (p.addValue x.2 []) (fun y hy => hall y (by simp [hy]))]
+    simp [PState.addValue, List.append_assoc]
 
 theorem dd_prefix (r : List Nat) : List.isPrefixOf [45, 45] (dd ++ r) = true := by simp [dd, List.isPrefixOf]
 
@@ -164,6 +227,73 @@ theorem C13_argv_loop (c : Context) (aU aF : Bool) (pos : Option (List Nat)) {ps
       simp only
       rw [ih f (vs ++ fl.map (fun x => (x.2, []))) rm0 (by simp at hf; omega)]
       simp [List.append_assoc]
+  | longNeg name k hname hno hget hneg t ih =>
+    intro f vs rm0 hf
+    cases f with
+    | zero => simp at hf
+    | succ f =>
+      have hlen : ¬ (dd ++ (noP ++ name)).length = 2 := by simp [dd, noP]
+      simp only [parseLoop, dd_prefix, ↓reduceIte, hlen]
+      have hdrop : (dd ++ (noP ++ name)).drop 2 = noP ++ name := by simp [dd]
+      rw [hdrop, C13_long_neg c aU aF name k _ hname hno hget hneg]
+      simp only [PState.addValue]
+      rw [ih f (vs ++ [(k, [110, 111])]) rm0 (by simp at hf; omega)]
+      simp [List.append_assoc]
+  | unknownLong r hne hneg hget t ih =>
+    intro f vs rm0 hf
+    cases f with
+    | zero => simp at hf
+    | succ f =>
+      have hlen : ¬ (dd ++ r).length = 2 := by
+        cases r with
+        | nil => exact absurd rfl hne
+        | cons _ _ => simp [dd]
+      simp only [parseLoop, dd_prefix, ↓reduceIte, hlen]
+      have hdrop : (dd ++ r).drop 2 = r := by simp [dd]
+      rw [hdrop, C13_long_unknown c aU aF r _ hneg hget]
+      simp only
+      rw [ih f vs (rm0 ++ [dd ++ r]) (by simp at hf; omega)]
+      simp [List.append_assoc]
+  | groupVal fl a v k hne hfirst hall hv hget himp t ih =>
+    intro f vs rm0 hf
+    cases f with
+    | zero => simp at hf
+    | succ f =>
+      obtain ⟨x, r, e⟩ : ∃ x r, fl = x :: r := by
+        cases fl with
+        | nil => exact absurd rfl hne
+        | cons x r => exact ⟨x, r, rfl⟩
+      have hx45 : x.1 ≠ 45 := by rw [e] at hfirst; simpa using hfirst
+      have hpre : List.isPrefixOf [45, 45] (45 :: (fl.map (·.1) ++ a :: v)) = false := by
+        rw [e]; simp [List.isPrefixOf]; exact fun h => hx45 h.symm
+      have hsh : ((45 :: (fl.map (·.1) ++ a :: v)).head? == some 45 && decide ((45 :: (fl.map (·.1) ++ a :: v)).length > 1)) = true := by rw [e]; simp
+      simp only [parseLoop, hpre, Bool.false_eq_true, ↓reduceIte, hsh]
+      have hdrop : (45 :: (fl.map (·.1) ++ a :: v)).drop 1 = fl.map (·.1) ++ a :: v := rfl
+      have hfuel : (45 :: (fl.map (·.1) ++ a :: v)).length + 1 = (v.length + 2 + 1) + fl.length := by simp; omega
+      rw [hdrop, hfuel, handleShort_group_then c aU fl (a :: v) _ _ hall, C13_short_attached c aU a v k _ _ hv hget himp]
+      simp only [PState.addValue]
+      rw [ih f (vs ++ fl.map (fun x => (x.2, [])) ++ [(k, v)]) rm0 (by simp at hf; omega)]
+      simp [List.append_assoc]
+  | groupSep fl a v k hne hfirst hall hget himp t ih =>
+    intro f vs rm0 hf
+    cases f with
+    | zero => simp at hf
+    | succ f =>
+      obtain ⟨x, r, e⟩ : ∃ x r, fl = x :: r := by
+        cases fl with
+        | nil => exact absurd rfl hne
+        | cons x r => exact ⟨x, r, rfl⟩
+      have hx45 : x.1 ≠ 45 := by rw [e] at hfirst; simpa using hfirst
+      have hpre : List.isPrefixOf [45, 45] (45 :: (fl.map (·.1) ++ [a])) = false := by
+        rw [e]; simp [List.isPrefixOf]; exact fun h => hx45 h.symm
+      have hsh : ((45 :: (fl.map (·.1) ++ [a])).head? == some 45 && decide ((45 :: (fl.map (·.1) ++ [a])).length > 1)) = true := by rw [e]; simp
+      simp only [parseLoop, hpre, Bool.false_eq_true, ↓reduceIte, hsh]
+      have hdrop : (45 :: (fl.map (·.1) ++ [a])).drop 1 = fl.map (·.1) ++ [a] := rfl
+      have hfuel : (45 :: (fl.map (·.1) ++ [a])).length + 1 = (2 + 1) + fl.length := by simp; omega
+      rw [hdrop, hfuel, handleShort_group_then c aU fl [a] _ _ hall, C13_short_sep c aU a v k _ _ 2 hget himp rfl]
+      simp only [PState.addValue]
+      rw [ih f (vs ++ fl.map (fun x => (x.2, [])) ++ [(k, v)]) rm0 (by simp at hf; omega)]
+      simp [List.append_assoc]
   | positional tok k hd hs hget t ih =>
     intro f vs rm0 hf
     cases f with
@@ -221,4 +351,15 @@ example : Sp exCtx false false none [(0, [51]), (0, [52]), (1, [])] [[120]] [dd 
   refine .shortSep 110 [52] 0 (by decide) (by rfl) (by rfl) ?_
   refine .group [(118, 1)] (by simp) (by simp) (by decide) (by intro x hx; simp at hx; subst hx; exact ⟨rfl, rfl, rfl⟩) ?_
   exact .terminator [[120]]
+/-! the further spellings: `--no-verb -vn5 -v 6?` … with unknown options allowed: `--no-verb -vn5 -vn 6 --zzz=1` is a spelling of
+    [(verb,"no"), (verb,""), (num,5), (verb,""), (num,6)] with `--zzz=1` left over -/
+def exCtx2 : Context :=
+  (((({} : Context).add { name := [110, 117, 109], alias := 110 }).bind (fun c => c.add { name := [118, 101, 114, 98], alias := 118, implicit := true, flag := true, negatable := true }))).getD {}
+
+example : Sp exCtx2 true false none [(1, [110, 111]), (1, []), (0, [53]), (1, []), (0, [54])] [dd ++ [122, 122, 122, 61, 49]]
+    [dd ++ (noP ++ [118, 101, 114, 98]), 45 :: ([(118, 1)].map (·.1) ++ 110 :: [53]), 45 :: ([(118, 1)].map (·.1) ++ [110]), [54], dd ++ [122, 122, 122, 61, 49]] := by
+  refine .longNeg [118, 101, 114, 98] 1 (by decide) (Or.inl (by rfl)) (by rfl) (by rfl) ?_
+  refine .groupVal [(118, 1)] 110 [53] 0 (by simp) (by decide) (by intro x hx; simp at hx; subst hx; exact ⟨rfl, rfl, rfl⟩) (by simp) (by rfl) (by rfl) ?_
+  refine .groupSep [(118, 1)] 110 [54] 0 (by simp) (by decide) (by intro x hx; simp at hx; subst hx; exact ⟨rfl, rfl, rfl⟩) (by rfl) (by rfl) ?_
+  exact .unknownLong [122, 122, 122, 61, 49] (by simp) (by rfl) (by rfl) .nil
 end PotasscoVerif.C13
